@@ -208,7 +208,8 @@ def delivery(ex, store_cb=None):
             t, res, dec = e[1], e[2], e[3]
             n_delivered += 1
             ts = res.get(ST_WORKER_TIMESTAMP)
-            order.append((t, ts))
+            if dec != "RAISED":
+                order.append((t, ts))   # (a delivery on which the scheduler raised never reaches the results log)
             if ts not in by_ts:
                 v.append(("delivery:unknown-result", f"trial {t}: delivered a result nobody reported: {res}"))
                 continue
@@ -456,7 +457,7 @@ def termination(ex, cfg):
     store = ex.extra.get("store")
     if store is not None and exc is None or (store is not None and expected_exc):
         n_rows = len(store.results)
-        n_del = sum(1 for e in log if e[0] == "on_trial_result")
+        n_del = sum(1 for e in log if e[0] == "on_trial_result" and e[3] != "RAISED")
         path = getattr(store, "csv_file", None)
         import os
         if path is not None and not os.path.exists(str(path)):
